@@ -184,9 +184,11 @@ PROPS = {
                       "are what numpy.linalg.solve returned for np.dot(A.T, A), np.dot(A.T, b) of exactly those arrays, followed by 0 for "
                       "the reference (dataflow by provenance in the symbolic executor).",
         "level_note": "Assumed: numpy.dot / transpose / linalg.solve compute the matrix product and the solution of M x = v (floats as "
-                      "reals; entries of products are not modelled). The correspondence between the row-wise statement proved by pyvc "
-                      "and Lean's designA (indexed by all (level, series) pairs, zero rows for absent pairs, which do not contribute "
-                      "to A^T A or A^T b) is by reading the two definitions. get_series_time_offsets (sorting, head mapping, choice of "
+                      "reals; entries of products are not modelled). pyvc proves the system row by row over the PRESENT (level, series) pairs; "
+                      "Lean's designA / designB are indexed by all pairs and vanish on the absent ones; that both have the same "
+                      "A^T A and A^T b is machine-checked (theorems normal_eq_of_present_rows, present_rows_normal_eq, "
+                      "c05_present_rows). What remains by reading: the row formula in contracts/fit_offsets.py (row_A, row_b) and "
+                      "the definition of designA / designB in the Lean file are the same two formulas. get_series_time_offsets (sorting, head mapping, choice of "
                       "the connected group) around find_offsets is covered by the stand-ins of C08.",
     },
     "C08": {
